@@ -20,6 +20,7 @@ from __future__ import annotations
 
 import hashlib
 import json
+import re
 import time
 
 import numpy as np
@@ -108,8 +109,11 @@ def collect(rng, thorough, per_class, hist=None, known_ids=(), on_view=None):
 
     for cls, cfg, A in ops.enumerate_ops(rng, thorough, per_class):
         if isinstance(A, Exception):
-            records.append({"cls": cls, "config": cfg, "view": None, "status": "build-error", "detail": repr(A)[:300]})
-            count(f"build-error:{cls}")
+            # a constructor that fails because a transpose (adjoint) cannot be derived means the forward map is not
+            # structurally linear: that is C06's business (failing obligation); other constructor failures are not
+            rel = bool(re.search(r"[Tt]ranspose|linear_transpose|not linear", repr(A)))
+            records.append({"cls": cls, "config": cfg, "view": "eval", "status": "build-error", "relevant": rel, "detail": repr(A)[:300]})
+            count(f"build-error:{cls}" + (":no-transpose" if rel else ""))
             continue
         fld = field_of(A)
         nops += 1
@@ -195,7 +199,7 @@ def emit(records, programs, nbuckets):
     buckets = {b: [] for b in range(nbuckets)}
     for key, ent in programs.items():
         buckets[int(ent["hash"][:8], 16) % nbuckets].append(ent)
-    failures = [r for r in records if r["status"] in ("not-translatable", "trace-error") and not r.get("known_id")]
+    failures = [r for r in records if (r["status"] in ("not-translatable", "trace-error", "not-constructible") or (r["status"] == "build-error" and r.get("relevant"))) and not r.get("known_id")]
     for r in failures:
         h = hashlib.sha256(json.dumps([r["cls"], r["config"], r["view"], r["status"]], default=str, sort_keys=True).encode()).hexdigest()
         buckets[int(h[:8], 16) % nbuckets].append({"failure": r, "hash": h})
@@ -262,6 +266,19 @@ def emit(records, programs, nbuckets):
 def generate(rng, thorough, per_class, nbuckets, hist=None, known_ids=(), on_view=None):
     t0 = time.time()
     records, programs = collect(rng, thorough, per_class, hist, known_ids, on_view)
+    # every class must contribute at least one translated forward program and one translated adjoint: a class whose
+    # operators cannot be constructed / traced at all gets a failing obligation (never silently absent)
+    have = {}
+    for r in records:
+        if r.get("status") == "ok":
+            have.setdefault(r["cls"], set()).add(r["view"])
+    for c in ops.all_classes():
+        if not {"eval", "adj"} <= have.get(c, set()):
+            first = next((r for r in records if r["cls"] == c and r["status"] != "ok"), None)
+            if first is not None and first["status"] == "build-error" and first.get("relevant"):
+                continue  # already a failing obligation
+            records.append({"cls": c, "config": first["config"] if first else None, "view": "eval", "status": "not-constructible",
+                            "detail": f"no translated eval+adj program for class {c}: " + (first.get("detail", "") if first else "no configuration")})
     t1 = time.time()
     mods, index = emit(records, programs, nbuckets)
     # build all modules at once (lake elaborates them in parallel); the runner's per-module builds are then no-ops
